@@ -175,6 +175,11 @@ fn history_chunk(cnfs: &[Vec<Clause>], order: &[usize], store: &str, cn: &mut Co
                     continue;
                 }
                 rep.transitions += 1;
+                // between two compilations of the long-lived builder: the builder's statistics
+                // queries (they hash every node of the table)
+                if rep.transitions % 2 == 1 {
+                    let _ = guarded(|| (b.num_logically_redundant(), b.stats().num_nodes_alloc));
+                }
                 if let Some((key, what)) = check_with(&b, c, nv, cn) {
                     rep.violation(
                         format!("topdown:{}", key),
